@@ -29,6 +29,8 @@ type c04Case struct {
 	StubFault  map[string]string `json:",omitempty"` // method -> err | panic | empty | conferr
 	NilAttrs   bool              `json:",omitempty"` // params.Attrs nil: the real handler dereferences it (panic inside a Handler method)
 	NilHandler bool              `json:",omitempty"`
+	Warm       bool              `json:",omitempty"` // real handler: a fault-free run on the SAME handler object precedes (fault indices count from the start of the second run)
+	WarmAgent  string            `json:",omitempty"` // with Warm: how the agent answers EVERY signature request of the second run (failure | garbage | empty | sign-other-data): the run fails with AllAuthFailed
 	Then       string            `json:",omitempty"` // stub: a further handler AFTER the scripted one that would accept the request: stub | real
 }
 
@@ -86,10 +88,27 @@ func c04Run(c *ev.Ctx, k c04Case) {
 	for _, id := range e.ua.Ring.Keys {
 		preBlobs[string(id.Blob)] = true
 	}
+	warmBase := 0
+	if k.Warm {
+		// a long-lived handler: it has already served one request successfully (whatever it remembers of that request must
+		// not make it miss a fault in this one)
+		if werr, wesc := e.run(defaultParams("alice"), []gensign.Handler{e.handler}); werr != nil || wesc != "" {
+			c.Violation("C04:harness:warm-run", fmt.Sprint(werr, wesc), k)
+			return
+		}
+		warmBase, e.caBase = len(e.ua.Log), len(e.ca.Reqs)
+		e.events = nil
+		if k.WarmAgent != "" {
+			e.adv.Behaviour = k.WarmAgent
+		}
+		for _, id := range e.ua.Ring.Keys {
+			preBlobs[string(id.Blob)] = true
+		}
+	}
 	for is, kind := range k.AgentFault {
 		var i int
 		fmt.Sscanf(is, "%d", &i)
-		e.ua.Plan[i] = kind
+		e.ua.Plan[warmBase+i] = kind
 	}
 	for is, kind := range k.CAFault {
 		var i int
@@ -158,6 +177,18 @@ func c04Run(c *ev.Ctx, k c04Case) {
 			e.events = saved
 		}
 	}
+	if k.WarmAgent != "" {
+		// the agent proves nothing in this run, whatever it proved in an earlier one
+		c.Outcome("warm/" + k.WarmAgent + "/" + errType(err))
+		c.Nontrivial(ev.JSON(k))
+		if errType(err) != "AllAuthFailed" {
+			c.Violation("C04:wrong-kind:agent:auth:want=AllAuthFailed:got="+errType(err), fmt.Sprintf("second request on a long-lived handler, the agent answers every signature request with %q: the run returned %s (%v)", k.WarmAgent, errType(err), err), k)
+		}
+		if len(e.ca.Reqs) != e.caBase {
+			c.Violation("C04:success-without-signing", "the failed run nevertheless sent a request to the CA", k)
+		}
+		return
+	}
 	first := ""
 	if len(e.events) > 0 {
 		first = e.events[0]
@@ -181,7 +212,7 @@ func c04Run(c *ev.Ctx, k c04Case) {
 	// certificates in the agent vs what the CA signed
 	issued := map[string]bool{}
 	nIssued := 0
-	for _, certs := range e.ca.Issued {
+	for _, certs := range e.ca.Issued[min(e.caBase, len(e.ca.Issued)):] { // (this run's: a warm-up run has its own)
 		for _, ct := range certs {
 			issued[string(ct.Marshal())] = true
 			nIssued++
@@ -205,8 +236,8 @@ func c04Run(c *ev.Ctx, k c04Case) {
 			}
 		}
 		if err == nil {
-			if len(e.ca.Reqs) != 1 || nIssued != k.NCerts {
-				c.Violation("C04:success-without-signing", fmt.Sprintf("success reported with %d CA calls and %d certificates issued (want 1 and %d)", len(e.ca.Reqs), nIssued, k.NCerts), k)
+			if len(e.ca.Reqs)-e.caBase != 1 || nIssued != k.NCerts {
+				c.Violation("C04:success-without-signing", fmt.Sprintf("success reported with %d CA calls and %d certificates issued (want 1 and %d)", len(e.ca.Reqs)-e.caBase, nIssued, k.NCerts), k)
 			}
 			if inAgent != nIssued {
 				c.Violation("C04:success-but-certificate-missing", fmt.Sprintf("success reported, CA issued %d certificates, the agent holds %d of them", nIssued, inAgent), k)
@@ -249,7 +280,7 @@ func faultClass(first string) string {
 
 func checkC04(c *ev.Ctx) {
 	defer cleanupScratch()
-	c.Rule("deviation-bounded fault enumeration over the real gensign.Run: default = everything succeeds; deviations = {failure, close, empty, unknown type, truncated, oversized} at every forwarded-agent request index (challenge, private-key add, list, removes, certificate adds) for CA replies of 1..3 certificates and 0/2 certificates of an earlier run; CA error / panic / error that is itself a typed gensign error of another stage at every call (likewise for the stub's AddCertsToAgent); stub-handler faults in Name/Authenticate/Generate/CSRs/AddCertsToAgent for 1..2 keys x 1..2 requests, and a stub crashing in Name / Authenticate in front of a handler (stub, real) that would accept; nil attributes / nil handler (panic inside the handler loop); agent replies of the wrong message type (the agent client panics inside the handler); after every faulted run of the real handler: no lock of the handler left held and a fault-free run on the SAME handler completes; sequences of three runs that share ONE agent/ssh.AgentKey object (idempotent CA) with one agent fault (thorough: two) at every request index of the first or second run. quick: every single deviation; thorough: every pair. Oracle: error-kind table from the statement keyed by the first fault that fired. non-trivial = run in which a fault fired; distinct by deviation vector")
+	c.Rule("deviation-bounded fault enumeration over the real gensign.Run: default = everything succeeds; deviations = {failure, close, empty, unknown type, truncated, oversized} at every forwarded-agent request index (challenge, private-key add, list, removes, certificate adds) for CA replies of 1..3 certificates and 0/2 certificates of an earlier run; CA error / panic / error that is itself a typed gensign error of another stage at every call (likewise for the stub's AddCertsToAgent); stub-handler faults in Name/Authenticate/Generate/CSRs/AddCertsToAgent for 1..2 keys x 1..2 requests, and a stub crashing in Name / Authenticate in front of a handler (stub, real) that would accept; nil attributes / nil handler (panic inside the handler loop); agent replies of the wrong message type (the agent client panics inside the handler); the same agent faults on a handler object that has already served one request; after every faulted run of the real handler: no lock of the handler left held and a fault-free run on the SAME handler completes; sequences of three runs that share ONE agent/ssh.AgentKey object (idempotent CA) with one agent fault (thorough: two) at every request index of the first or second run. quick: every single deviation; thorough: every pair. Oracle: error-kind table from the statement keyed by the first fault that fired. non-trivial = run in which a fault fired; distinct by deviation vector")
 	c.Assume("well-formed agent replies of the wrong message type are excluded (x/crypto's client panics on them by design; gensign.Run's recover turns that into a Panic error, which is checked separately below)")
 	if c.ReplayCase != nil {
 		var rk c04ReuseCase
@@ -321,6 +352,19 @@ func checkC04(c *ev.Ctx) {
 					}
 				}
 			}
+		}
+	}
+	// the same fault vectors on a handler object that has already served one request (2 certificates of that run are in
+	// the agent, so the request indices are those of OldCerts=nc)
+	for _, nc := range []int{1, 2} {
+		for i := 0; i < 3+nc+nc+1; i++ {
+			for _, kd := range []string{uagent.FaultFailure, uagent.FaultClose, uagent.FaultEmpty} {
+				cases = append(cases, c04Case{Handler: "real", NCerts: nc, Warm: true, AgentFault: map[string]string{fmt.Sprint(i): kd}})
+			}
+		}
+		cases = append(cases, c04Case{Handler: "real", NCerts: nc, Warm: true, CAFault: map[string]string{"1": "err"}})
+		for _, beh := range []string{"failure", "garbage", "empty", "sign-other-data"} {
+			cases = append(cases, c04Case{Handler: "real", NCerts: nc, Warm: true, WarmAgent: beh})
 		}
 	}
 	// a handler that crashes in Name / Authenticate in front of one that would accept: the crash ends the run
